@@ -20,6 +20,9 @@ PAT = {
     "stored vertices with NaN": "never stores non-finite",
     "without an incident cell": "records an incident cell",
     "a constructor returned Ok with a cell": "batch construction returns cells",
+    "stored the vertex unwrapped": "wraps the vertex into the fundamental domain",
+    "toroidal metadata dropped by the heuristic rebuild": "heuristic rebuild keeps the global topology",
+    "wrapping returned the period itself": "never returns the period itself",
 }
 def h(pat):
     for l in log:
